@@ -83,7 +83,10 @@ pub async fn walk_and_report(
                 sig = s;
             }
         }
-        sig = narrow_class(&sig, detail, w.view.as_ref());
+        let stale_before = h.steps.iter().any(|s| {
+            s.outcome.is_ok() && s.loc.as_ref() == Some(loc) && matches!(s.extra, crate::hist::Extra::Stale { what: "append", .. })
+        });
+        sig = narrow_class(&sig, detail, w.view.as_ref(), stale_before);
         if sig == "rowid-duplicate-among-live-rows" || sig == "rowid-not-below-next_row_id" {
             // row-id sequences persisted by a rewrite that read them through the session cache:
             // only classified narrowly when this lineage really reused a fragment id before
@@ -97,14 +100,17 @@ pub async fn walk_and_report(
             &sig,
             &format!("{what}: {detail}"),
             json!({"seed": seed, "case": case, "config": h.cfg.describe(), "version": what,
-                   "problem": detail, "all_problems": w.problems, "ops": h.ops_json(48)}),
+                   "problem": detail, "all_problems": w.problems,
+                   "manifest_view": w.view.as_ref().map(|v| json!({"schema_fields": v.schema_fields, "not_null": v.non_nullable,
+                        "fragments": v.frags.iter().map(|f| json!({"id": f.id, "rows": f.physical_rows, "files": f.files.iter().map(|d| format!("{:?}", d.fields)).collect::<Vec<_>>()})).collect::<Vec<_>>()})),
+                   "ops": h.ops_json(48)}),
         );
     }
     w.deletion_files_read > 0 || w.index_segments > 0 || w.frags.iter().any(|f| f.n_files > 1)
 }
 
 /// Narrow, oracle-computed classes for failures whose cause is visible in the observed view.
-pub fn narrow_class(sig: &str, detail: &str, view: Option<&View>) -> String {
+pub fn narrow_class(sig: &str, detail: &str, view: Option<&View>, stale_append_before: bool) -> String {
     if sig.ends_with("-panic") && detail.contains("rewrite group that was a split of indexed and non-indexed data") {
         // the frag-reuse index written by a deferred-remap compaction cannot be applied to the index
         // list of its own version (load_indices unwraps the error)
@@ -132,10 +138,11 @@ pub fn narrow_class(sig: &str, detail: &str, view: Option<&View>) -> String {
         // the null-filling reader
         return "scan-fails-legacy-fragment-lacks-a-schema-field".into();
     }
-    if sig.starts_with("full-scan") && detail.contains("panicked") && detail.contains("PrimitiveArray data should contain a single buffer") && lacks_field(false) {
-        // same root cause as the other stale-append classes (a fragment written with an older schema
-        // lacks a schema field); here the 2.0 decoder asserts while null-filling
-        return "decoder-panics-null-filling-column-absent-from-a-fragment".into();
+    if sig.starts_with("full-scan") && detail.contains("panicked") && detail.contains("PrimitiveArray data should contain a single buffer") && stale_append_before {
+        // same root cause as the other stale-append classes: an append from a stale handle was rebased
+        // over schema changes; its data file carries a field id that meanwhile names another column
+        // (dropped, files compacted away, id handed out again by add_columns) and is decoded as that type
+        return "decoder-panics-on-fragment-appended-from-stale-handle-after-schema-change".into();
     }
     let dead_file = view
         .map(|v| {
